@@ -60,8 +60,8 @@ sorted, fixups by index).  All three are compared with the implementation on eve
 
 `MapOK1` (Proofs/C06.lean) is the domain: numeric tokens are numeric and free of blanks and
 brackets, keys are not `id` / `replace…` and differ ignoring case, fixup indexes are distinct, output fields do not contain their own separator, worldspawn is not hidden, the format
-version is 100 — and, in this **v1 statement**, faces carry no displacement and no Strata point
-data (those are covered by the correspondence and the search only). `IdsOK`: no id is the
+version is 100 — and, in this **v1 statement**, faces carry no displacement (displacement data
+is in the model, the correspondence and the search, but not yet in the theorem). `IdsOK`: no id is the
 "allocate one" marker -1, group ids are distinct. -/
 
 /-- **Round trip (v1 domain).** Re-parsing the exported tree with `preserve_ids=True` gives
@@ -162,7 +162,7 @@ def exSide : Side :=
     points := none, disp := none }
 
 def exSolid : Solid :=
-  { id := 3, sides := [exSide, { exSide with id := 8 }], visIds := [15, 7], hidden := true, group := some 4,
+  { id := 3, sides := [exSide, { exSide with id := 8, points := some [exV "1" "2" "3", exV "0" "-0.5" "7"] }], visIds := [15, 7], hidden := true, group := some 4,
     visShown := false, visAuto := true, cordon := true, color := exV "0" "255" "100" }
 
 def exOut : Out :=
